@@ -250,6 +250,11 @@ def staging_buffer(prog, res):
                 if av is None and arm.get("k") == "ref" and arm.get("rk") in ("l", "sl"):
                     sd2 = f.single_def(arm["n"])
                     av = const_val(sd2) if sd2 is not None else None
+                if av is None and arm.get("k") == "ref" and arm.get("rk") == "g":
+                    try:
+                        av = const_val(prog.glob(arm["n"]).get("init"))
+                    except Broken:
+                        av = None
                 if av is not None:
                     floor = av
                 elif any(y.get("f") == "blockSizeMax" for y in f.walk_resolved(arm)):
